@@ -95,6 +95,37 @@ func c20GenFile(r *vfRand, kind string, n int, total int64, ts0 int64, idx0 int)
 	return lines, ts
 }
 
+// c20GenExact generates mixed-length lines whose total size (with newlines)
+// is exactly total (total must be at least a few hundred bytes).
+func c20GenExact(r *vfRand, total int64, ts0 int64) (lines []c20Line) {
+	ts := ts0
+	size := int64(0)
+	for i := 0; ; i++ {
+		rest := total - size
+		ts += r.Range(1, 1000)
+		if rest <= maxEntrySize-1 {
+			// the last line takes exactly what is left (incl. its newline)
+			lines = append(lines, c20MakeLine(i, ts, int(rest-1)))
+			return lines
+		}
+		var want int64
+		switch r.Intn(5) {
+		case 0:
+			want = r.Range(60, 300)
+		case 1:
+			want = maxEntrySize - 1
+		default:
+			want = r.Range(3000, maxEntrySize-1)
+		}
+		if rest-want-1 < 200 {
+			want = rest - 1 - 200
+		}
+		l := c20MakeLine(i, ts, int(want))
+		lines = append(lines, l)
+		size += int64(len(l.text)) + 1
+	}
+}
+
 func c20Write(path string, lines []c20Line) error {
 	var b bytes.Buffer
 	for _, l := range lines {
@@ -263,6 +294,11 @@ func c20FileCase(t *testing.T, out *vfOut, r *vfRand, dir string, kind string, l
 		if q.bufferStart != lastBS {
 			inits++
 			lastBS = q.bufferStart
+			if lastBS > 0 && lastBS < maxEntrySize {
+				cls["chunk-start-in-(0,maxEntry)"] = true
+			} else if lastBS >= maxEntrySize && lastBS < 2*maxEntrySize {
+				cls["chunk-start-in-[maxEntry,2maxEntry)"] = true
+			}
 		}
 		obs = append(obs, "("+strconv.Itoa(len(line))+","+strconv.FormatInt(q.position, 10)+")")
 		if k < 0 {
@@ -580,6 +616,19 @@ func TestVerifC20(t *testing.T) {
 	// lines of maxEntrySize-1 bytes beyond the buffer: every window starts inside a line
 	big, _ := c20GenFile(pr, "limit", 0, bufferSize+5*maxEntrySize, ts0, 0)
 	c20FileCase(t, out, pr, dir, "limit-big", big, 30, []string{"lines-at-limit"})
+	// files just over one / two buffer sizes: the first 1.6 MB chunk (or the
+	// re-read one) starts at a file offset in (0, maxEntrySize)
+	for _, d := range []int64{1, 2, 700, 5000, 16084, 16383, 16384, 16385, 20000} {
+		ex := c20GenExact(pr, bufferSize+d, ts0)
+		if c20Size(ex) != bufferSize+d {
+			t.Fatalf("c20GenExact: size %d, want %d", c20Size(ex), bufferSize+d)
+		}
+		c20FileCase(t, out, pr, dir, "buffer+"+strconv.FormatInt(d, 10), ex, 12, []string{"size-just-over-buffer"})
+	}
+	for _, d := range []int64{700, 9000, 16383} {
+		ex := c20GenExact(pr, 2*bufferSize+d, ts0)
+		c20FileCase(t, out, pr, dir, "2buffer+"+strconv.FormatInt(d, 10), ex, 12, []string{"size-just-over-2-buffers"})
+	}
 	sh, _ := c20GenFile(pr, "short", 400, 0, ts0, 0)
 	c20FileCase(t, out, pr, dir, "short-400", sh, 1000, nil)
 	{
